@@ -187,13 +187,10 @@ func HandleLsub(deps ServerDeps, conn net.Conn, tag string, parts []string, stat
 		return
 	}
 
-	// If no subscriptions exist, subscribe to default mailboxes
+	// If no subscriptions exist, present the default mailboxes. LSUB only reads:
+	// the subscription list changes through SUBSCRIBE and UNSUBSCRIBE alone.
 	if len(subscriptions) == 0 {
-		defaultMailboxes := []string{"INBOX", "Sent", "Drafts", "Trash", "Spam"}
-		for _, mailbox := range defaultMailboxes {
-			_ = db.SubscribeToMailboxPerUser(userDB, state.UserID, mailbox)
-		}
-		subscriptions = defaultMailboxes
+		subscriptions = []string{"INBOX", "Sent", "Drafts", "Trash", "Spam"}
 	}
 
 	// Apply reference and pattern matching to subscriptions
